@@ -40,3 +40,7 @@ def replay(path):
     verd.findings = []
     lsem.decide(PROP, [p], "replay", verd, {"states": 0, "transitions": 0}, {}, [])
     return verd.finish()
+
+
+def selftest():
+    return lsem.selftest(PROP, lsem.number([("script",) + gen_co.script_program(random.Random(i)) + (None,) for i in range(150)]))
